@@ -71,6 +71,17 @@ def run(ck, tier):
     nrand = 20000 if tier == 'quick' else 200000
     for _ in range(nrand):
         vecs.append({'needs': random_graph(rng, rng.choice([5, 5, 5, 6, 7, 8, 10, 12])), 'random': True})
+    # large graphs: rings and chains far longer than any fixed recursion bound, a tail into a ring, two disjoint rings
+    def ring(n, off=0):
+        return [[(j % n) + 1 + off] for j in range(1, n + 1)]
+    big = []
+    for n_ in (300, 700):
+        big.append(ring(n_))
+        big.append([[]] + [[j] for j in range(1, n_)])                       # chain, no cycle
+        big.append([[j + 2] for j in range(0, 50)] + ring(n_ - 50, 50))     # tail of 50 into a ring
+    big.append(ring(150) + ring(150, 150))
+    big_keys = {json.dumps(g) for g in big}
+    vecs += [{'needs': g, 'random': True} for g in big]
     seen = set()
     inp = []
     for v in vecs:
@@ -97,6 +108,49 @@ def run(ck, tier):
         bad = [o for o in rec['other']]
         if bad:
             raise Inconclusive('observable not understood: %r on graph %s' % (bad[:2], rec['needs']))
+    # graphs far beyond the model bound (hundreds of jobs) are judged here by the same declarative property (TLC's
+    # set-based reachability is cubic in the number of jobs): exactly one cycle diagnostic iff the graph is cyclic,
+    # and the printed path is a simple cycle of the graph
+    def cyclic(g):
+        state = [0] * (len(g) + 1)
+        for s0 in range(1, len(g) + 1):
+            if state[s0]:
+                continue
+            stack = [(s0, iter(g[s0 - 1]))]
+            state[s0] = 1
+            while stack:
+                v, it = stack[-1]
+                nxt = next(it, None)
+                if nxt is None:
+                    state[v] = 2
+                    stack.pop()
+                elif 1 <= nxt <= len(g):
+                    if state[nxt] == 1:
+                        return True
+                    if state[nxt] == 0:
+                        state[nxt] = 1
+                        stack.append((nxt, iter(g[nxt - 1])))
+        return False
+    small_lines = []
+    small_recs = []
+    for ln, rec in zip(lines, recs):
+        if json.dumps(rec['needs']) not in big_keys:
+            small_lines.append(ln)
+            small_recs.append(rec)
+            continue
+        g = rec['needs']
+        ok = rec['status'] == 'ok' and not rec['dangling'] and len(rec['cycles']) == (1 if cyclic(g) else 0)
+        for c_ in rec['cycles']:
+            p_ = c_['path']
+            ok = ok and len(p_) >= 2 and p_[0] == p_[-1] and len(set(p_[:-1])) == len(p_) - 1 and \
+                all(1 <= a <= len(g) and b in g[a - 1] for a, b in zip(p_, p_[1:]))
+        if not ok:
+            ck.violation('needs-graph:%s:large' % rec['via'],
+                         'graph of %d jobs (via %s): status=%s dangling=%s cycles=%s is not what the declarative graph property demands '
+                         '(cyclic=%s)' % (len(g), rec['via'], rec['status'], rec['dangling'][:3], [c_['path'][:6] for c_ in rec['cycles']], cyclic(g)),
+                         {'kind': 'graph', 'needs': g, 'via': rec['via'], 'observed': rec})
+    ck.cov['large_graphs_judged_in_driver'] = len(recs) - len(small_recs)
+    recs, text = small_recs, '\n'.join(small_lines) + '\n'
     t = vplib.run_tlc('NeedsTrace', 'NeedsTrace.cfg', workers=1, files={'trace.ndjson': text}, timeout=3000, heap='4g')
     ck.add_tlc('NeedsTrace: %d recorded executions of the real rule (declarative judgement)' % len(recs), t)
     mism = parse_mism(t.out)
@@ -121,6 +175,8 @@ def run(ck, tier):
     for r in recs[:3] + [r for r in recs if r['cycles']][:2]:
         ck.sample(r)
     ck.assumptions += ['job ids are valid identifiers; position of job k is line-ordered by k',
+                       'seven graphs of 300-700 jobs (rings, chains, a tail into a ring, two disjoint rings) are judged by the driver with the same '
+                       'declarative property instead of TLC',
                        'Go map iteration order cannot be forced: each graph is run several times to vary the DFS entry '
                        'point (sound, not complete); the model covers every order']
     if tier == 'thorough':
